@@ -83,11 +83,12 @@ def run(c):
     # 4. old values -> bytes (model), then both sides on the bytes
     nseeds = 5 if c.thorough else 2
     gen_lines, owner = [], []
+    nokernel = set()
     for idx, (l, kind, meta) in enumerate(accepted):
         o, n = l.split(" ")[1:3]
         if kern.get(o) != "ok" or kern.get(n) != "ok":
             c.count("wire:kernel-rejects-schema")
-            continue
+            nokernel.add(idx)
         roots = roots_of(L.dec(o))
         c.rng.shuffle(roots)
         for r in roots[:(8 if kind in ("witness", "sample-acc") else 3)]:
@@ -96,10 +97,16 @@ def run(c):
                 owner.append(idx)
     gen = run_lines(model, gen_lines)
     wire_lines, wowner, mdiff = [], [], {}
+    model_only_diff = {}
     for gl, g, idx in zip(gen_lines, gen, owner):
         if g.startswith("ok "):
             p = g.split(" ")
             wl = gl[:-3] + p[1] + (" r" if p[2] != p[1] else " s")
+            if idx in nokernel:
+                # the dynamic interpreter cannot be asked: keep the model's answer only
+                if p[2] != p[1]:
+                    model_only_diff.setdefault(idx, wl)
+                continue
             wire_lines.append(wl)
             wowner.append(idx)
             mdiff[wl] = p[2] != p[1]
@@ -144,11 +151,17 @@ def run(c):
                               + (" (%s)" % meta["name"] if kind == "witness" else " (%s, edits %s)" % (kind, meta)), impl_diff[idx])
             else:
                 c.count("pair:wire-break-in-known-class:" + "+".join(sorted(classes)))
+        elif idx in model_only_diff and kind != "witness":
+            if explained:
+                c.count("pair:model-wire-break-in-known-class:" + "+".join(sorted(classes)))
+            else:
+                c.oracle_fail(cl, "accepted by the linter, but the new schema gives an old value no/another encoding (model encoder; the "
+                              "kernel refuses one of the schemas) (%s, edits %s)" % (kind, meta), model_only_diff[idx])
         elif kind == "witness":
             # witnesses whose schemas the kernel refuses are decided on the model: accepted and not wireCompat
-            if not wc and idx in model_diff:
+            if not wc and (idx in model_diff or idx in model_only_diff):
                 c.oracle_fail(cl, "accepted by the linter, but an old value encodes differently under the new schema (model encoder; "
-                              "the kernel refuses one of the schemas) (%s)" % meta["name"], model_diff[idx])
+                              "the kernel refuses one of the schemas) (%s)" % meta["name"], model_diff.get(idx) or model_only_diff.get(idx))
             elif not wc:
                 c.oracle_fail(cl, "accepted by the linter although not wire compatible (%s)" % meta["name"], cl)
     c.extra["phase_seconds"] = ph
